@@ -2,7 +2,13 @@
 EXTENDS ReplConfig, Json, CSV, IOUtils
 Export == CSVWrite("%1$s", <<ToJson(hist')>>, IOEnv.VERIF_OUT)
 ExportLeaves == (steps' = MaxSteps) => Export
-\* histories worth a real run: at least one restart followed by a write
-Interesting(h) == \E i, j \in 1..Len(h) : i < j /\ h[i].op = "restart" /\ h[j].op = "write"
+\* histories worth a real run: a restart while the peers are configured for different, non-empty sets of collections,
+\* followed by a write to a collection that exactly one of them receives
+PeerSeq == CHOOSE s \in [1..Cardinality(Peers) -> Peers] : \A i, j \in 1..Cardinality(Peers) : i # j => s[i] # s[j]
+Interesting(h) == \E i, j \in 1..Len(h) :
+                    /\ i < j /\ h[i].op = "restart" /\ h[j].op = "write"
+                    /\ \A p \in Peers : h[i].obs.cfg[p] # {}
+                    /\ \E p, q \in Peers : h[i].obs.cfg[p] # h[i].obs.cfg[q]
+                    /\ \E p, q \in Peers : h[j].col \in h[j].obs.cfg[p] /\ h[j].col \notin h[j].obs.cfg[q]
 ExportInteresting == (steps' = MaxSteps /\ Interesting(hist')) => Export
 =============================================================================
